@@ -190,7 +190,7 @@ def laws(E, law, ell, ds, cap):
 
 def harnesses(tier):
     q = tier == "quick"
-    T = 600 if q else 2400
+    T = 600 if q else 900
     hs = []
     for law in ('then', 'tensor', 'dagger', 'id_swap', 'snake', 'interchange',
                 'swap_natural'):
